@@ -798,7 +798,13 @@ class FldExporter(Exporter):
         if self.input_values:
             values.append(engine.input_values)
         if self.output_values:
-            values.append(engine.output_values)
+            output_values = engine.output_values
+            if output_values.ndim == 2 and output_values.shape[0] != input_values.shape[0]:
+                # every output value is a single value (eg, disabled variables): one row for each row of input values
+                output_values = np.broadcast_to(
+                    output_values, (input_values.shape[0], output_values.shape[1])
+                )
+            values.append(output_values)
         if not values:
             values.append([])
 
